@@ -32,14 +32,14 @@ def main(argv):
             try:
                 c = show(isa, isa.call(b, clean))
             except Exception as ex:
-                c = "raised %s at %s" % D.crash_key(ex)
+                c = "raised %s at %s" % D.crash_key(ex)[:2]
             if argv[2] == "family":
                 print("d(%s) = %s" % (hx, c))
                 continue
             try:
                 o = show(isa, isa.call(b, one))
             except Exception as ex:
-                o = "raised %s at %s" % D.crash_key(ex)
+                o = "raised %s at %s" % D.crash_key(ex)[:2]
             print("d(%s) on the one object = %s%s" % (hx, o, "   [__i left set]" if isa.pending(one) is not None else ""))
             if o != c:
                 print("      on a clean object   = %s    <-- differs" % c)
